@@ -113,6 +113,10 @@ def render(style, vals):
         return '; only comments\n# transport=unix:///nowhere.sock\n\n', {}
     if style == 'one-key':
         return f"transport={vals['transport']}\n", {'transport': vals['transport']}
+    if style in ('no-transport', 'tpm-only', 'pib-only', 'no-pib'):
+        keep = {'no-transport': ('pib', 'tpm'), 'tpm-only': ('tpm',), 'pib-only': ('pib',), 'no-pib': ('transport', 'tpm')}[style]
+        sub = {k: v for k, v in vals.items() if k in keep}
+        return ''.join(f'{k}={v}\n' for k, v in sub.items()), sub
     if style == 'all':
         return ''.join(f'{k}={v}\n' for k, v in vals.items()), dict(vals)
     if style == 'blanks':
@@ -122,7 +126,7 @@ def render(style, vals):
     raise ValueError(style)
 
 
-STYLES = ['empty', 'comments', 'one-key', 'all', 'blanks', 'semicolon']
+STYLES = ['empty', 'comments', 'one-key', 'all', 'blanks', 'semicolon', 'no-transport', 'tpm-only', 'pib-only', 'no-pib']
 STORES = ['scheme-only', 'absolute', 'rel-conf', 'rel-cwd', 'missing']
 
 
